@@ -9,6 +9,7 @@ impl Parser {
 
         loop {
             if self.match_token(&TokenKind::LParen) {
+                self.chain_link()?;
                 let mut args = Vec::new();
 
                 if !self.check(&TokenKind::RParen) {
@@ -31,6 +32,7 @@ impl Parser {
                     span,
                 );
             } else if self.match_token(&TokenKind::Dot) {
+                self.chain_link()?;
                 let member = self.consume_identifier("member name")?;
                 let span = expr.span.merge(self.previous().span);
 
@@ -42,6 +44,7 @@ impl Parser {
                     span,
                 );
             } else if self.match_token(&TokenKind::LBracket) {
+                self.chain_link()?;
                 let index_or_range = self.parse_index_or_range()?;
                 self.consume(&TokenKind::RBracket, "]")?;
                 let span = expr.span.merge(self.previous().span);
